@@ -126,7 +126,8 @@ def g_kill(rng, total, sink):
     if r < 0.55 and sink == "raw":
         if rng.random() < 0.5:
             return {"at": "in-write", "n": n, "chunks": rng.choice([0, 1, 1, 2, 3, 7]), "offset": None}
-        return {"at": "in-write", "n": n, "chunks": None, "offset": rng.choice([0, 1, 2, 17, 100, 4095, 4096, 4097, 70000, rng.randint(0, 300), rng.randint(0, 1 << 20)])}
+        return {"at": "in-write", "n": n, "chunks": None,
+                "offset": rng.choice([0, 1, 2, 17, 100, 4095, 4096, 4097, 70000, rng.randint(0, 300), rng.randint(0, 1 << 20)] + [rng.randint(1, 90) for _ in range(10)])}
     if r < 0.8:
         return {"at": "after-write", "n": n}
     return {"at": "after-flush", "n": n}
@@ -147,6 +148,7 @@ def run_child(spec_in, parent_kill_delay=None, timeout=60):
         os.close(w)
         buf = b""
         t0 = time.time()
+        t_ready = t_end = None
         killed_by_parent = False
         try:
             deadline = None
@@ -164,8 +166,11 @@ def run_child(spec_in, parent_kill_delay=None, timeout=60):
                 if rl:
                     chunk = os.read(r, 65536)
                     if not chunk:
+                        t_end = time.time()
                         break
                     buf += chunk
+                    if t_ready is None and b"R" in buf:
+                        t_ready = time.time()
                     if parent_kill_delay is not None and deadline is None and not killed_by_parent and b"R" in buf:
                         deadline = time.time() + parent_kill_delay
         finally:
@@ -208,7 +213,7 @@ def run_child(spec_in, parent_kill_delay=None, timeout=60):
             done = True
         i += 1
     return dict(data=data, acks=acks, ready=ready, done=done, wlens=wlens, rc=proc.returncode, stderr=err[-800:], who=who,
-                killed_by_parent=killed_by_parent)
+                killed_by_parent=killed_by_parent, run_s=(t_end - t_ready) if t_ready and t_end else None)
 
 
 # ---- oracle ----------------------------------------------------------------------------------------
@@ -378,15 +383,14 @@ def run(ctx):
         raise InfraError("C11 child imported eliot from %r, not from %s" % (who, REPO))
     # calibration for parent kills: time per message of a long program
     cal_ops = g_program(ctx.rng("cal"), 65537, True)
-    t0 = time.time()
     cal = run_child(dict(ops=cal_ops, sink="raw", chunk=65536, kill=None))
     ncal = len(skeleton(cal_ops))
-    per_msg = max(1e-5, (time.time() - t0 - 0.15) / max(1, ncal))
+    per_msg = max(1e-5, (cal["run_s"] or 0.0) / max(1, ncal))
     ctx.extra["calibration"] = dict(messages=ncal, per_message_s=per_msg)
 
     jobs = []
-    nself = ctx.budget(100, 2000)
-    nparent = ctx.budget(50, 1000)
+    nself = ctx.budget(110, 2000)
+    nparent = ctx.budget(90, 1000)
     ncontrol = ctx.budget(4, 40)
     for i in range(nself + nparent + ncontrol):
         parent = nself <= i < nself + nparent
@@ -402,7 +406,7 @@ def run(ctx):
             job["kill"] = g_kill(rng, len(sk), sink)
             job["kind"] = "self"
         elif parent:
-            job["delay"] = rng.uniform(0, 1.3 * per_msg * len(sk)) if rng.random() < 0.85 else rng.uniform(0, 0.003)
+            job["delay"] = rng.uniform(0, 0.6 * per_msg * len(sk)) if rng.random() < 0.85 else rng.uniform(0, 0.003)
             job["kind"] = "parent"
         else:
             job["kind"] = "control"
@@ -424,14 +428,17 @@ def run(ctx):
                  + (["ran-to-end"] if res["done"] else []))
         ctx.count("messages-acked", n=res["acks"])
         if job["kind"] == "self" and res["done"]:
-            # the kill point was never reached (cannot happen: n < total) -> harness problem, not a verdict
-            raise InfraError("C11 self-kill point was not reached: %s" % json.dumps(job["kill"]))
+            # n < number of messages, so a destination doing one write + one flush per message passes this point
+            ctx.violation("the program ran to its end but the file object never reached the point '%s' of message %d: "
+                          "it did not receive one write followed by one flush for each of the %d messages"
+                          % (job["kill"]["at"], job["kill"]["n"], len(sk)), case)
+            continue
         if job["kind"] == "control" and (not res["done"] or res["rc"] != 0):
             ctx.violation("a program without any kill did not run to its end (rc=%s): %s" % (res["rc"], res["stderr"][-300:]), case)
             continue
         ok = oracle(ctx, case, sk, res)
         mr = model_request(job["kill"], job["sink"], job["chunk"], res["wlens"]) if ok else None
-        if mr is not None and sum(mr[0]) <= 3000000:
+        if mr is not None and sum(mr[0]) <= 400000:
             lens, css, k = mr
             reqs.append({"op": "crash", "lens": lens, "css": css, "k": k})
             after.append((case, dict(disk=len(res["data"]), acked=res["acks"], read=ncomplete)))
